@@ -923,7 +923,8 @@ func ruleC20OptionsShared(c *Ctx) {
 	c.Fn("Prepare")
 	op := paramNameOfType(prep, "*Options")
 	ok, why, n := true, "", 0
-	allInstrs(prep, func(_ *ssa.BasicBlock, in ssa.Instruction) {
+	// (the allocation may sit in a constructor helper Prepare hands its options to)
+	deepInstrs(prep, func(_ *ssa.Function, tb *TB, _ *ssa.BasicBlock, in ssa.Instruction) {
 		st, isSt := in.(*ssa.Store)
 		if !isSt {
 			return
@@ -933,8 +934,8 @@ func ruleC20OptionsShared(c *Ctx) {
 			return
 		}
 		n++
-		if p, isP := st.Val.(*ssa.Parameter); !isP || p.Name() != op {
-			ok, why = false, "Prepare stores "+NewTB().Of(st.Val).String()+" into the new query's options instead of its options parameter: nested statements get a different register file"
+		if vt := tb.Of(st.Val); !(vt.Op == "param" && vt.Name == op) {
+			ok, why = false, "Prepare stores "+vt.String()+" into the new query's options instead of its options parameter: nested statements get a different register file"
 		}
 	})
 	if n == 0 {
